@@ -39,9 +39,9 @@ CHECK_DEADLOCK FALSE
 
 META = {
     "category": "model_checking",
-    "text": "TLC explores every TSIG exchange of the transcribed ClientTransaction/ClientSequence/ServerTransaction/ServerSequence/ServerError machines against an on-path adversary (17 kinds of tampering at every message), skewed clocks, truncation policies the RCODE x TSIG-error field of signed answers (time window enforced whenever the MAC verifies, except the RFC's NOTAUTH error answers), and an independent RFC 8945 responder that leaves answers unsigned (including runs of 99 and 100), with HMAC as a free constructor, and proves honest-verifies, the RFC-assigned error for every tampering, octet restoration, the 99/100 bound and that every MAC is the HMAC of the declarative RFC digest. Every explored behaviour is replayed with the real API, real messages and ring keys (MACs compared with an independent HMAC of the spec's term), and recorded random exchanges (octets, independent digest inputs) are validated by TLC.",
-    "note": "Wrappers (net::client::tsig::Connection, TsigMiddlewareSvc) are driven back-to-back in memory with a re-composing mock transport, honest clocks. Trusted: TLC, ring's HMAC, the transcription of RFC 8945 4.3/5.2/5.3 in Tsig.tla, the harness codec. Symbolic crypto: unknown digest => unknown MAC. A MAC below the policy minimum may be BADTRUNC or FORMERR; the result of the client on an unsigned error answer is compared by class. 'Restored octets' = the message up to its last counted record (the library documents that the stale TSIG octets stay behind the message).",
-    "technique": "TLA+ spec (Tsig.tla, MC_Tsig.tla) + TLC exhaustive; spec->impl behaviour replay with independent HMAC; impl->spec trace validation (Trace_Tsig.tla)",
+    "text": "TLC explores every TSIG exchange of the transcribed ClientTransaction/ClientSequence/ServerTransaction/ServerSequence/ServerError machines against an on-path adversary (17 kinds of tampering of contents and fields plus 20 structural mutations of the TSIG record itself at every message: algorithm and key name as names - labels appended / removed / prefixed, doubled, HMAC-x.SIG-ALG.REG.INT, root, other case, compressed, dangling pointer -, CLASS / TTL of the RR, RDLENGTH and Other Len that disagree with the RDATA), skewed clocks, truncation policies the RCODE x TSIG-error field of signed answers (time window enforced whenever the MAC verifies, except the RFC's NOTAUTH error answers), and an independent RFC 8945 responder that leaves answers unsigned (including runs of 99 and 100), with HMAC as a free constructor, and proves honest-verifies, the RFC-assigned error for every tampering, octet restoration, the 99/100 bound, that every MAC is the HMAC of the declarative RFC digest, and that whatever a receiver accepts carries the MAC of the RFC 8945 4.3.3 digest of the message as received (names, CLASS, TTL of the record included). A second machine (MC_TsigKeys) covers the key-configuration space: Key::new / Key::generate with every (algorithm, min_mac_len, signing_len) in and out of range are admitted exactly within [max(10, half the hash length), hash length], every admitted key signs with signing_len octets and, as server and as client, decides a presented MAC of every length 0..native+1 as RFC 8945 5.2.2.1 demands (never below the floor, BADTRUNC below the policy); Algorithm::from_name / to_name / FromStr / Display are a bijection on every name of up to 3 labels over supported names and near misses. Every explored behaviour is replayed with the real API, real messages and ring keys (MACs compared with an independent HMAC of the spec's term), and recorded random exchanges (octets, independent digest inputs) are validated by TLC.",
+    "note": "Where RFC 8945 leaves the receiver a choice the specification admits a set: an algorithm name in another case may be recognised or BADKEY, compressed names accepted or FORMERR, a wrong CLASS / TTL FORMERR or BADSIG (on a second or later answer of a sequence, where only the timers are signed, also accepted). Open deviation D_tsig_class_ttl_unchecked: the library never looks at CLASS / TTL of a received TSIG RR (proposed_fixes/); while it is open the wrappers' run leaves the CLASS / TTL mutations to the base-API executor. Compression pointers of generated behaviours target the second flags octet (a root label in requests and NOERROR answers), recorded traces use the question name. Wrappers (net::client::tsig::Connection, TsigMiddlewareSvc) are driven back-to-back in memory with a re-composing mock transport, honest clocks. Trusted: TLC, ring's HMAC, the transcription of RFC 8945 4.3/5.2/5.3 in Tsig.tla, the harness codec. Symbolic crypto: unknown digest => unknown MAC. A MAC below the policy minimum may be BADTRUNC or FORMERR; the result of the client on an unsigned error answer is compared by class. 'Restored octets' = the message up to its last counted record (the library documents that the stale TSIG octets stay behind the message).",
+    "technique": "TLA+ spec (Tsig.tla, MC_Tsig.tla, MC_TsigKeys.tla) + TLC exhaustive; spec->impl behaviour replay with independent HMAC; impl->spec trace validation (Trace_Tsig.tla)",
     "design_ref": "DESIGN.md §4 C11",
 }
 
